@@ -648,7 +648,7 @@ def norm(t, _arith=True):  # noqa: C901, PLR0911, PLR0912
         parts = []
         for x in t[1]:
             if x[0] == "star":
-                inner = norm(_strip_keys(x[1]))
+                inner = norm(_iterated(_strip_keys(x[1])))  # *[f(i) for ...] and *(f(i) for ...) splice the same items
                 sub_parts = _cat_parts(inner)  # *[a, b], *(x, *y), *([1] * n): spliced
                 if sub_parts is not None:
                     parts.extend(sub_parts)
@@ -714,6 +714,8 @@ def norm(t, _arith=True):  # noqa: C901, PLR0911, PLR0912
             # the consumer only iterates its argument: a list/tuple copy or a list comprehension in place of a
             # generator makes no difference
             t = ("call", f, (_iterated(t[2][0]), *t[2][1:]), t[3])
+        if name == "functools.reduce" and len(t[2]) >= 2:
+            t = ("call", f, (t[2][0], _iterated(t[2][1]), *t[2][2:]), t[3])  # reduce only iterates its second argument
         if name == "builtins.zip" and any(k == "strict" for k, _ in t[3]):
             # whether a length mismatch raises or truncates is not part of the normal form (see deindex)
             t = ("call", f, t[2], tuple((k, v) for k, v in t[3] if k != "strict"))
